@@ -589,10 +589,14 @@ def spawn_layer_in_subprocess(result, script_parts, options, features,
         nfail = nerr = 0
         for line in erriter:
             try:
-                result.num_ran, nfail, nerr = map(int, line.strip().split())
+                # The number of skipped tests is an optional fourth field.
+                counts = [int(field) for field in line.strip().split()]
+                nran, nfail_, nerr_, nskip = counts + [0] * (len(counts) == 3)
             except ValueError:
                 continue
             else:
+                result.num_ran, nfail, nerr = nran, nfail_, nerr_
+                skipped.extend([(None, None)] * nskip)
                 break
         else:
             errmsg = "Could not communicate with subprocess!"
